@@ -1,6 +1,7 @@
 import AlgoVerif.Proofs.C18Stack
 import AlgoVerif.Proofs.C18Queue
 import AlgoVerif.Proofs.C18Soft
+import AlgoVerif.Proofs.C18Gen
 /-!
 # C18 — property theorems (statements only live here; helper lemmas in `Proofs/C18*.lean`)
 
@@ -91,6 +92,63 @@ example :
     SoftQueue.run (fun (a b : Int) => a == b) SoftQueue.new
       [.enq 10, .enq 20, .deq, .peek, .deq, .deq, .isEmpty, .enq 30, .contains 10, .contains 99, .size,
        .peek, .values]
+    = [.ok (.int 0), .ok (.int 1), .ok (.valIdx (some (10, 0))), .ok (.valIdx (some (20, 1))),
+       .ok (.valIdx (some (20, 1))), .ok (.valIdx none), .ok (.bool true), .ok (.int 2), .ok (.int 0),
+       .ok (.int (-1)), .ok (.int 1), .ok (.valIdx (some (30, 2))), .ok (.list [10, 20, 30])] := by
+  decide
+
+/-! ## the second tie (soft queue): the Model REGENERATED from the source equals the hand Model
+
+`AlgoVerif.Generated.List.*` (file `Generated/C18Gen.lean`) is produced from `/repo/list/soft_queue.go` by the
+translator `/verif/extract/go2lean` on every run of this check (`bin/pre-C18`; scheme, subset and what is trusted:
+header of `extract/go2lean/main.go`).  `sq` reads the generated structure as the Model's, `valIdx` reads Go's
+`(T, int)` as an `Option` (index `-1` = nothing); Go's zero value of `T` is the `default` of the `Inhabited`
+instance.  An edit of `soft_queue.go` that changes what a method computes changes the generated file and these
+stop checking.  (`stack.go`, `queue.go`: pointer-linked blocks, outside the translator's subset.) -/
+
+open AlgoVerif.Generated.List AlgoVerif.C18.Gen
+
+/-- `NewSoftQueue`, `Size`, `IsEmpty`, `Enqueue` (pure: they cannot panic) -/
+theorem C18_generated_softQueue_pure {α : Type} [Inhabited α] (eq : α → α → Bool) (q : softQueue α) (v : α) :
+    (NewSoftQueue eq).map sq = .ok SoftQueue.new ∧ softQueue.Size q = (sq q).size ∧
+    softQueue.IsEmpty q = (sq q).isEmpty ∧
+    (sq (softQueue.Enqueue q v).1, (softQueue.Enqueue q v).2) = (sq q).enqueue v :=
+  ⟨New_eq eq, Size_eq q, IsEmpty_eq q, Enqueue_eq q v⟩
+
+/-- `Dequeue`, `Peek` (they index `q.list[q.front]`: same result, same panic) -/
+theorem C18_generated_softQueue_front {α : Type} [Inhabited α] (q : softQueue α) :
+    (softQueue.Dequeue q).map (fun r => (sq r.1, valIdx r.2)) = (sq q).dequeue ∧
+    (softQueue.Peek q).map valIdx = (sq q).peek :=
+  ⟨Dequeue_eq q, Peek_eq q⟩
+
+/-- `Contains` (a `range` loop with a `return` inside) and `Values` (`make` + `copy`) -/
+theorem C18_generated_softQueue_scan {α : Type} [Inhabited α] (q : softQueue α) (v : α) :
+    softQueue.Contains q v = .ok ((sq q).contains q.equal v) ∧
+    (softQueue.Values q).map Array.toList = .ok (sq q).values :=
+  ⟨Contains_eq q v, Values_eq q⟩
+
+/-- histories: the trace of the generated definitions is the Model's trace -/
+theorem C18_generated_softQueue_run {α : Type} [Inhabited α] (q : softQueue α) (ops : List (SoftOp α)) :
+    Gen.run q ops = SoftQueue.run q.equal (sq q) ops :=
+  run_eq ops q
+
+/-- `C18_softQueue_refines`, about the generated definitions: from `NewSoftQueue(equal)` every history produces
+exactly the Spec's outputs; nothing panics -/
+theorem C18_generated_softQueue_refines {α : Type} [Inhabited α] (eq : α → α → Bool) (ops : List (SoftOp α)) :
+    ∃ q0, NewSoftQueue eq = .ok q0 ∧ Gen.run q0 ops = (Spec.SQ.run eq {} ops).map Outcome.ok := by
+  obtain ⟨q0, h0, he⟩ := New_equal eq
+  refine ⟨q0, h0, ?_⟩
+  have hs : sq q0 = SoftQueue.new := by
+    have := New_eq eq; rw [h0] at this; simpa using this
+  rw [run_eq, he, hs]
+  exact C18_softQueue_refines eq ops
+
+-- non-vacuity: the generated definitions compute the Model's example trace
+example :
+    (match NewSoftQueue (fun (a b : Int) => a == b) with
+     | .ok q => Gen.run q [.enq 10, .enq 20, .deq, .peek, .deq, .deq, .isEmpty, .enq 30, .contains 10, .contains 99,
+         .size, .peek, .values]
+     | _ => [])
     = [.ok (.int 0), .ok (.int 1), .ok (.valIdx (some (10, 0))), .ok (.valIdx (some (20, 1))),
        .ok (.valIdx (some (20, 1))), .ok (.valIdx none), .ok (.bool true), .ok (.int 2), .ok (.int 0),
        .ok (.int (-1)), .ok (.int 1), .ok (.valIdx (some (30, 2))), .ok (.list [10, 20, 30])] := by
